@@ -416,6 +416,10 @@ func consumeStreamsBlockedFrame(b []byte) (typ streamType, max int64, n int) {
 	if nn < 0 {
 		return 0, 0, -1
 	}
+	if max > maxStreamsLimit {
+		// RFC 9000, section 19.14: a value above 2^60 is a frame encoding error.
+		return 0, 0, -1
+	}
 	n += nn
 	return typ, max, n
 }
